@@ -770,9 +770,48 @@ def r5(ctx):
             ctx.ok(rule, "integer#extensible", detail)
 
 
+def r6(ctx):
+    rule = "C08.R6"
+    ctx.rule(rule, "one extension flag per parse: every IntegerRange(..) value that proc_macro::range::IntegerRange::parse returns "
+                   "carries the same flag expression - the one decided by the `,...` look-ahead - in its second field; a branch "
+                   "that returns a constant there drops (or invents) the marker for the bounds it handles")
+    P = ctx.program()
+    bs = [b for b in P.lib_bodies("asn1rs_model") if b.name == "parse" and "IntegerRange" in (b.impl_self_ty or "") and b.def_kind == "AssocFn"]
+    if len(bs) != 1:
+        ctx.fail(rule, "anchor-lost:IntegerRange::parse", "matched %d bodies" % len(bs))
+        return
+    b = bs[0]
+    O = X.Origins(b, P)
+    flags = []
+    for bb, j, st in b.all_statements():
+        if st["k"] == "assign" and st["rv"]["k"] == "agg" and st["rv"].get("ak") == "adt" and st["rv"]["adt"].endswith("range::IntegerRange") \
+                and len(st["rv"]["ops"]) == 2:
+            e = O.operand(st["rv"]["ops"][1], bb, j)
+            flags.append((F.rd(e), F.strip_casts(e)[0], span_loc(st["sp"])))
+    detail = {"function": b.path, "flags": [(f[0], f[2]) for f in flags]}
+    if not flags:
+        ctx.fail(rule, "anchor-lost:IntegerRange-construction", "IntegerRange::parse builds no IntegerRange", "%s:%d" % (b.file, b.line))
+        return
+    decided = [f for f in flags if f[1] != "const"]
+    consts = [f for f in flags if f[1] == "const"]
+    if not decided:
+        ctx.fail(rule, "IntegerRange::parse#flag", "no returned IntegerRange takes its flag from the look-ahead", flags[0][2], detail)
+    elif consts:
+        ctx.fail(rule, "IntegerRange::parse#flag", "the IntegerRange built at %s carries the constant flag %s while the others carry the parsed "
+                                                    "`,...` decision: `integer(min..max,...)` and the like lose (or gain) the extension "
+                                                    "marker" % (consts[0][2], consts[0][0]), consts[0][2], detail)
+    elif len({f[0] for f in decided}) != 1:
+        ctx.fail(rule, "IntegerRange::parse#flag", "the returned IntegerRange values carry different flag expressions: %s" % sorted({f[0] for f in decided}),
+                 flags[0][2], detail)
+    else:
+        ctx.ok(rule, "IntegerRange::parse#flag", detail)
+    ctx.floor(rule, len(flags), "C08.R6.constructions")
+
+
 def run(ctx):
     r1(ctx)
     r2(ctx)
     r3(ctx)
     r4(ctx)
     r5(ctx)
+    r6(ctx)
